@@ -165,12 +165,26 @@ theorem aCreateCtype_path (hk : Cont db0 ctx c k) (found : Option ConsRow) (t : 
   refine Path.txn' _ _
     (fun _ s' => Ph db0 { ctx with ctCache := none } s' ∧ PU ctx.cfg c s' ∧ Found c found s' ∧ TOK (some t) s') ?_
   rintro s ⟨hp, hpu, hf⟩
-  have r := residue_ctypes s t
-  have hp' : Ph db0 { ctx with ctCache := none } { s with ctypes := addIfMissing s.ctypes t } :=
-    (hp.residue r).setCache none (fun l hl => by cases hl)
-  refine ⟨hp'.g h0 _, ⟨hp', hpu.residue r, hf.residue r, ?_⟩, ?_⟩
-  · intro x hx; cases hx; exact mem_addIfMissing_self _ _
-  · exact aAfterType_path h0 (ctx := { ctx with ctCache := none }) hk found (some t)
+  unfold aCreateCtype
+  split
+  · next hc =>
+    -- lost the race: nothing is written, the type is looked up again
+    have hp0 : Ph db0 { ctx with ctCache := none } s := hp.setCache none (fun l hl => by cases hl)
+    refine ⟨hp.g h0 _, ⟨hp0, hpu, hf, fun x hx => by cases hx; simpa using hc⟩, ?_⟩
+    refine Path.read _ _ ?_
+    rintro s' ⟨hp1, hpu1, hf1, ht1⟩
+    have hp2 : Ph db0 { ctx with ctCache := some s'.ctypes } s' :=
+      hp1.setCache _ (fun l hl x hx => by cases hl; exact hx)
+    refine ⟨rfl, hp1.g h0 _, ?_⟩
+    refine (aAfterType_path h0 (ctx := { ctx with ctCache := some s'.ctypes }) hk found (some t)).weaken ?_
+    rintro s'' rfl
+    exact ⟨hp2, hpu1, hf1, ht1⟩
+  · have r := residue_ctypes s t
+    have hp' : Ph db0 { ctx with ctCache := none } { s with ctypes := addIfMissing s.ctypes t } :=
+      (hp.residue r).setCache none (fun l hl => by cases hl)
+    refine ⟨hp'.g h0 _, ⟨hp', hpu.residue r, hf.residue r, ?_⟩, ?_⟩
+    · intro x hx; cases hx; exact mem_addIfMissing_self _ _
+    · exact aAfterType_path h0 (ctx := { ctx with ctCache := none }) hk found (some t)
 
 theorem aGetCtype_path (hk : Cont db0 ctx c k) (found : Option ConsRow) (t : Nat) :
     Path (G db0) (fun s => Ph db0 ctx s ∧ PU ctx.cfg c s ∧ Found c found s)
@@ -236,9 +250,16 @@ theorem aCreateUser_path (hk : Cont db0 ctx c k) :
       (.txn .createUser (aCreateUser ctx c k)) := by
   refine Path.txn' _ _ (fun _ s' => Ph db0 ctx s' ∧ PU ctx.cfg c s') ?_
   rintro s ⟨hp, hpr⟩
-  have r := residue_users s (Placement.reqUser ctx.cfg c)
-  have hp' := hp.residue r
-  exact ⟨hp'.g h0 _, ⟨hp', hpr, mem_addIfMissing_self _ _⟩, aGetConsumer_path h0 hk⟩
+  unfold aCreateUser
+  split
+  · next hc =>
+    refine ⟨hp.g h0 _, ⟨hp, hpr, by simpa using hc⟩, ?_⟩
+    refine Path.read _ _ ?_
+    rintro s' ⟨hp1, hpu1⟩
+    exact ⟨rfl, hp1.g h0 _, (aGetConsumer_path h0 hk).at ⟨hp1, hpu1⟩⟩
+  · have r := residue_users s (Placement.reqUser ctx.cfg c)
+    have hp' := hp.residue r
+    exact ⟨hp'.g h0 _, ⟨hp', hpr, mem_addIfMissing_self _ _⟩, aGetConsumer_path h0 hk⟩
 
 theorem aGetUser_path (hk : Cont db0 ctx c k) :
     Path (G db0) (fun s => Ph db0 ctx s ∧ Placement.reqProject ctx.cfg c ∈ s.projects)
@@ -259,9 +280,16 @@ theorem aCreateProject_path (hk : Cont db0 ctx c k) :
     Path (G db0) (Ph db0 ctx) (.txn .createProject (aCreateProject ctx c k)) := by
   refine Path.txn' _ _ (fun _ s' => Ph db0 ctx s' ∧ Placement.reqProject ctx.cfg c ∈ s'.projects) ?_
   intro s hp
-  have r := residue_projects s (Placement.reqProject ctx.cfg c)
-  have hp' := hp.residue r
-  exact ⟨hp'.g h0 _, ⟨hp', mem_addIfMissing_self _ _⟩, aGetUser_path h0 hk⟩
+  unfold aCreateProject
+  split
+  · next hc =>
+    refine ⟨hp.g h0 _, ⟨hp, by simpa using hc⟩, ?_⟩
+    refine Path.read _ _ ?_
+    rintro s' ⟨hp1, hpr1⟩
+    exact ⟨rfl, hp1.g h0 _, (aGetUser_path h0 hk).at ⟨hp1, hpr1⟩⟩
+  · have r := residue_projects s (Placement.reqProject ctx.cfg c)
+    have hp' := hp.residue r
+    exact ⟨hp'.g h0 _, ⟨hp', mem_addIfMissing_self _ _⟩, aGetUser_path h0 hk⟩
 
 theorem aGetProject_path (hk : Cont db0 ctx c k) :
     Path (G db0) (Ph db0 ctx) (.txn .getProject (aGetProject ctx c k)) := by
